@@ -4,6 +4,8 @@ import NimaVerif.Model.SExp
 Driver requests for L3–L5 (container fragment):
 
     (roundtrip (F (item…) <endGap>))  →  (ok <text>) | (err <class>) | (uncovered <why>)
+    (pieces    (F (item…) <endGap>))  →  (ok (t|c|w <text>)…) | (err <class>) | (uncovered <why>)
+    (flatten   (F (item…) <endGap>))  →  (ok <text>)
 
     cst   ::= (l <kind> <text>) | (L (item…) <closeGap>) | (S <t|f> <recGap> (item…) <closeGap>)
     item  ::= (c <gap> <text>) | (e <gap> cst)
@@ -60,6 +62,19 @@ def handle (req : SExp) : Option SExp :=
       else if !f.noLeadingWs then some (.list [.atom "uncovered", .atom "leading-ws"])
       else match f.roundtrip with
         | .ok t => some (.list [.atom "ok", sText t])
+        | .error e => some (sErr e)
+  | .list [.atom "pieces", f] =>
+    -- the piece-level renderer: (ok (t|c|w <text>)…)
+    match decFile f with
+    | none => some (.list [.atom "bad-arg"])
+    | some f =>
+      if !f.wf then some (.list [.atom "uncovered", .atom "wf"])
+      else if !f.noLeadingWs then some (.list [.atom "uncovered", .atom "leading-ws"])
+      else match f.parse with
+        | .ok s => some (.list (.atom "ok" :: s.rebuildP.map fun p => match p with
+            | .tok t => .list [.atom "t", sText t]
+            | .cmt t => .list [.atom "c", sText t]
+            | .ws t => .list [.atom "w", sText t]))
         | .error e => some (sErr e)
   | .list [.atom "flatten", f] =>
     match decFile f with
